@@ -7,7 +7,11 @@ a seeded history in which two actors are interleaved by a seeded scheduler:
 * traffic: flows are created and announced through the addon's event handlers
   (requestheaders / tcp_start / udp_start / dns_request), mutated (method, URL/address/question,
   sizes, response, error, mark, liveness) and announced through the update handlers (response,
-  error, intercept, resume, kill, tcp_message, ...), killed, re-announced;
+  error, intercept, resume, kill, tcp_message, ...), killed, re-announced.  As in the real proxy
+  (a layer changes the flow first, the hook that makes the addon run ``update()`` fires later on
+  the same event loop) the change and its announcement are also generated as two SEPARATE
+  operations: ``mutate`` (attributes change, the view is not told) and, possibly after other
+  traffic and user operations, the ``update`` that delivers the hook;
 * user: filter / order / reverse / marked-only / clear / clear-unmarked / remove / duplicate /
   focus moves / focus-follow / per-flow settings.
 
@@ -16,6 +20,16 @@ the documented meaning of filters and sort orders, never reading View internals)
 with what the view lists, the focus, the settings store and the signals that were sent while
 the operation ran.  The run stops at the first operation with a violation (later differences
 would be consequences of the first).
+
+What is owed while a change has not been announced yet ("stale" flow): the view cannot know about
+it, so the model keeps, per stored flow, the attributes as of the last time the view evaluated the
+filter for it (add, update of that flow, every re-filter: set_filter / toggle_marked /
+clear_unmarked evaluate all stored flows) and the attributes as of the last time its sort key was
+taken (insert into the view, update of that flow, re-filter, set_order: keys of all listed flows).
+Membership by filter and position are owed for THOSE attributes; everything else is owed
+unconditionally: a removed / cleared flow is neither listed nor stored and has no settings, every
+listed flow is stored, the focus is a listed flow, notifications match the changes.  After the
+``update`` both snapshots are the live attributes again, i.e. the full property holds.
 """
 from __future__ import annotations
 
@@ -42,7 +56,9 @@ THOROUGH_BUDGET_S = 900
 CHUNK = 500
 RULE = ("seeded histories of 12-110 operations by two interleaved actors (seeded scheduler with run lengths): traffic "
         "(announce new HTTP/TCP/UDP/DNS flows, mutate sort keys + filter-relevant attributes then fire the matching "
-        "update hook, batch updates, kills, marks, re-announce) and user (filter from a pool of 22 expressions, 4 orders, "
+        "update hook, batch updates, kills, marks, re-announce; in 60% of the runs also `mutate` = the change alone, "
+        "the update hook being delivered by a later operation so that user and traffic operations run while a flow's "
+        "cached sort key / filter verdict is out of date) and user (filter from a pool of 22 expressions, 4 orders, "
         "reverse, marked-only toggle, clear, clear-unmarked, remove, duplicate, focus go/next/prev/set/index, "
         "focus-follow, settings); a per-run profile switches marked-only mode, key mutation, filters and the set of "
         "orders on/off so that every feature also runs without the others; non-trivial = both actors acted, the view "
@@ -53,8 +69,11 @@ COMPONENTS_REAL = ["addons.view.View", "addons.view.Focus", "addons.view.Setting
                    "sortedcontainers.SortedListWithKey"]
 COMPONENTS_STUB = ["proxy core (flows are built and mutated by the traffic actor, hooks are called directly)",
                    "console/web UI (a recording signal subscriber stands in for it)"]
-ASSUMPTIONS = ["every flow mutation is announced by the corresponding update hook before the next operation "
-               "(the view cannot know about silent changes)",
+ASSUMPTIONS = ["a flow mutation is announced by the corresponding update hook either in the same operation or by a later "
+               "one; in between (the view cannot know about silent changes) filter membership is owed for the attributes "
+               "the view last evaluated (add / update of the flow / re-filter of all stored flows) and the position for "
+               "the sort key as of the last insert / update / re-filter / set_order; store, settings, focus and "
+               "notification obligations are owed unconditionally",
                "ties in the selected sort key may be listed in any relative order",
                "signals are checked against a membership replica of a subscriber: add/remove must be applicable, "
                "refresh reloads, the replica must equal the listed flows when the operation returns; a pure re-order "
@@ -65,7 +84,12 @@ EXPECTED_PROBES = ["add_in_marked_only", "update_in_marked_only", "order_switch_
                    "key_change_in_view", "key_change_while_hidden", "update_enters_view", "update_leaves_view",
                    "remove_shown", "remove_hidden", "remove_focused", "duplicate", "clear", "clear_unmarked",
                    "readd_removed", "reversed_listing", "tie_keys", "refilter_nonempty", "focus_follow_add",
-                   "update_unstored", "batch_update", "kill"]
+                   "update_unstored", "batch_update", "kill",
+                   # change and update hook as separate operations
+                   "mutated_without_update", "mutate_key_drift_in_view", "deliver_after_mutate", "remove_while_stale",
+                   "clear_while_stale", "clear_unmarked_while_stale", "refilter_while_stale", "set_order_while_stale",
+                   "set_reversed_while_stale", "duplicate_while_stale", "update_other_while_stale",
+                   "add_stored_id_while_stale", "focus_on_stale", "stale_filter_verdict", "stale_position_owed"]
 
 ORDERS = ["time", "method", "url", "size"]
 TYPES = ["http", "http", "http", "tcp", "udp", "dns", "dns"]
@@ -218,6 +242,8 @@ def apply_real(f, a, changed):
                 f.error = None
         elif k == "live":
             f.live = a["live"]
+        elif k == "ts":
+            f.timestamp_created = a["ts"]
         elif t == "http":
             if k == "method":
                 f.request.method = a["method"]
@@ -266,8 +292,10 @@ ALL_UPDATE_HOOKS = {h for v in UPDATE_HOOKS.values() for h in v} | set(KILL_HOOK
 
 # operations that have no documented way to fail on valid input
 MUST_NOT_RAISE = {"add", "update", "update_batch", "kill", "remove", "set_filter", "set_order", "set_reversed",
-                  "toggle_marked", "clear", "clear_unmarked", "focus_go", "focus_next", "focus_prev", "focus_follow"}
+                  "toggle_marked", "clear", "clear_unmarked", "focus_go", "focus_next", "focus_prev", "focus_follow",
+                  "mutate"}
 VIA = {"add": "add", "duplicate": "add", "update": "update", "update_batch": "update", "kill": "update",
+       "mutate": "mutate",
        "set_filter": "refilter", "toggle_marked": "refilter", "clear_unmarked": "refilter",
        "set_order": "order", "set_reversed": "order", "remove": "remove", "clear": "clear",
        "focus_go": "focus", "focus_next": "focus", "focus_prev": "focus", "focus_set": "focus", "focus_index": "focus"}
@@ -327,6 +355,55 @@ def _mutation(r, t, profile):
     return s
 
 
+ORDER_ATTRS = {"time": {},
+               "method": {"http": ["method"], "dns": ["opcode"]},
+               "url": {"http": ["url"], "tcp": ["addr"], "udp": ["addr"], "dns": ["qname"]},
+               "size": {"http": ["req_size", "resp", "resp"], "tcp": ["msgs"], "udp": ["msgs"], "dns": ["resp"]}}
+
+
+def _silent_mutation(r, t, profile, order):
+    """What a proxy layer changes on a flow BEFORE the hook fires that tells the view: the sort-relevant attributes
+    (size, URL/address/question, method/op-code, creation time) and, less often, error and mark."""
+    if profile["mutate_keys"]:
+        if t == "http":
+            keys = ["method", "url", "url", "req_size", "resp", "resp", "resp", "ts", "error", "marked"]
+        elif t in ("tcp", "udp"):
+            keys = ["addr", "msgs", "msgs", "msgs", "ts", "error", "marked"]
+        else:
+            keys = ["opcode", "qname", "resp", "resp", "ts", "error", "marked"]
+    else:
+        keys = ["marked", "error"]
+    s = {}
+    for j in range(r.choice([1, 1, 1, 2, 3])):
+        k = r.choice(keys)
+        if j == 0 and profile["mutate_keys"] and order != "time" and r.random() < 0.5:
+            # aimed at the order the user selected last (creation time practically never changes: not aimed at)
+            k = r.choice(ORDER_ATTRS[order].get(t) or keys)
+        if k == "marked":
+            s[k] = r.random() < 0.5
+        elif k == "error":
+            s[k] = r.random() < 0.7
+        elif k == "ts":
+            s[k] = 100.0 + r.randrange(0, 6) * 0.5
+        elif k == "method":
+            s[k] = r.choice(HTTP_METHODS)
+        elif k == "url":
+            s[k] = r.choice(HTTP_URLS)
+        elif k == "req_size":
+            s[k] = r.choice(REQ_SIZES)
+        elif k == "resp":
+            s[k] = copy.deepcopy(r.choice(RESP[1:] if t == "http" else DNS_RESP[1:]))
+        elif k == "addr":
+            s[k] = list(r.choice(ADDRS))
+        elif k == "msgs":
+            s[k] = list(r.choice(MSGS))
+        elif k == "opcode":
+            s[k] = r.choice(sorted(DNS_OPNAME))
+        elif k == "qname":
+            s[k] = r.choice(QNAMES)
+    return s
+
+
 def _wchoice(r, items):
     tot = sum(w for _, w in items)
     x = r.random() * tot
@@ -344,20 +421,34 @@ def generate(rng, tier):
                "orders": sorted(rp.sample(ORDERS, norders), key=ORDERS.index)}
     n_ops = rp.choice([12, 25, 25, 40, 60, 60, 110] if tier == "quick" else [25, 60, 110, 200, 400])
     max_flows = rp.choice([4, 8, 8, 14])
+    # change and update hook as separate operations (own site: the other profile draws stay what they were)
+    profile["split_hooks"] = rng.at("c43.profile.split").random() < 0.6
+    split = profile["split_hooks"]
     ops = []
     labels = []  # [label, type]
     types = {}
     stored = set()  # generator's rough idea of what is stored (only used to aim operations)
+    pending = []    # labels with a change whose update hook has not been delivered yet (rough, aiming only)
+    cur_order = "time"
     actor = "traffic"
     switch_p = rs.choice([0.15, 0.3, 0.5, 0.8])
     n_new = 0
 
-    def pick(r, prefer_stored=True):
+    def pick(r, prefer_stored=True, aim_stale=0.0):
         if not labels:
             return None
+        if aim_stale and pending:
+            # user operations are aimed at flows that are waiting for their update hook now and then
+            cand = [l for l in pending if l in stored]
+            if cand and r.random() < aim_stale:
+                return r.choice(cand)
         if prefer_stored and stored and r.random() < 0.85:
             return r.choice(sorted(stored))
         return r.choice(labels)
+
+    def announced(lab):
+        if lab in pending:
+            pending.remove(lab)
 
     for i in range(n_ops):
         if rs.random() < switch_p:
@@ -367,9 +458,25 @@ def generate(rng, tier):
         if actor == "traffic":
             r = rt
             w_add = 5.0 if len(labels) < 2 else (2.5 if len(labels) < max_flows else 0.1)
-            kind = _wchoice(r, [("add", w_add), ("update", 5.0), ("batch", 0.8), ("kill", 0.4), ("readd", 0.5),
-                                ("mark", 1.0)])
-            if kind == "add" or not labels:
+            if split:
+                kind = _wchoice(r, [("add", w_add), ("update", 2.5), ("batch", 0.6), ("kill", 0.4), ("readd", 0.6),
+                                    ("mark", 0.8), ("mutate", 3.0), ("deliver", 2.0 if pending else 0.0)])
+            else:
+                kind = _wchoice(r, [("add", w_add), ("update", 5.0), ("batch", 0.8), ("kill", 0.4), ("readd", 0.5),
+                                    ("mark", 1.0)])
+            if kind == "mutate" and labels:
+                lab = pick(r)
+                if lab not in pending:
+                    pending.append(lab)
+                ops.append({"actor": "traffic", "op": "mutate", "flow": lab,
+                            "set": _silent_mutation(r, types[lab], profile, cur_order)})
+            elif kind == "deliver" and labels:
+                # the hook for an earlier change arrives (now and then together with a further change)
+                lab = pending.pop(0) if r.random() < 0.6 else pending.pop(r.randrange(len(pending)))
+                t = types[lab]
+                ops.append({"actor": "traffic", "op": "update", "flow": lab, "hook": r.choice(UPDATE_HOOKS[t]),
+                            "set": _mutation(r, t, profile) if r.random() < 0.25 else {}})
+            elif kind == "add" or not labels:
                 t = r.choice(TYPES)
                 lab = "f%d" % n_new
                 n_new += 1
@@ -380,10 +487,12 @@ def generate(rng, tier):
             elif kind == "update":
                 lab = pick(r)
                 t = types[lab]
+                announced(lab)
                 ops.append({"actor": "traffic", "op": "update", "flow": lab, "hook": r.choice(UPDATE_HOOKS[t]),
                             "set": _mutation(r, t, profile)})
             elif kind == "mark":
                 lab = pick(r)
+                announced(lab)
                 ops.append({"actor": "traffic", "op": "update", "flow": lab, "hook": r.choice(UPDATE_HOOKS[types[lab]]),
                             "set": {"marked": r.random() < 0.6}})
             elif kind == "batch":
@@ -391,12 +500,15 @@ def generate(rng, tier):
                 items = []
                 for _ in range(k):
                     lab = pick(r)
+                    announced(lab)
                     items.append({"flow": lab, "set": _mutation(r, types[lab], profile)})
                 ops.append({"actor": "traffic", "op": "update_batch", "flows": items})
             elif kind == "kill":
-                ops.append({"actor": "traffic", "op": "kill", "flow": pick(r)})
+                lab = pick(r)
+                announced(lab)
+                ops.append({"actor": "traffic", "op": "kill", "flow": lab})
             else:
-                lab = pick(r, prefer_stored=False)
+                lab = pick(r, prefer_stored=False, aim_stale=0.3)  # also: an id that is stored (ignored by the view)
                 stored.add(lab)
                 ops.append({"actor": "traffic", "op": "add", "flow": lab})
         else:
@@ -409,7 +521,8 @@ def generate(rng, tier):
             if kind == "set_filter":
                 ops.append({"actor": "user", "op": "set_filter", "expr": r.choice(FILTER_POOL)})
             elif kind == "set_order":
-                ops.append({"actor": "user", "op": "set_order", "order": r.choice(profile["orders"])})
+                cur_order = r.choice(profile["orders"])
+                ops.append({"actor": "user", "op": "set_order", "order": cur_order})
             elif kind == "set_reversed":
                 ops.append({"actor": "user", "op": "set_reversed", "value": r.random() < 0.6})
             elif kind == "toggle_marked":
@@ -423,17 +536,17 @@ def generate(rng, tier):
                 k = r.choice([1, 1, 1, 2, 3])
                 sel = []
                 for _ in range(k):
-                    lab = pick(r)
+                    lab = pick(r, aim_stale=0.5)
                     if lab not in sel:
                         sel.append(lab)
                 for lab in sel:
-                    stored.discard(lab)
+                    stored.discard(lab)  # stays in `pending`: the hook of a removed flow still arrives later
                 ops.append({"actor": "user", "op": "remove", "flows": sel})
             elif kind == "duplicate":
                 k = r.choice([1, 1, 2])
                 sel = []
                 for _ in range(k):
-                    lab = pick(r)
+                    lab = pick(r, aim_stale=0.3)
                     if lab not in sel:
                         sel.append(lab)
                 for lab in sel:
@@ -448,7 +561,7 @@ def generate(rng, tier):
                 if fk == "focus_go":
                     ops.append({"actor": "user", "op": fk, "offset": r.choice([0, 1, 2, 5, -1, -2, -9, 30])})
                 elif fk == "focus_set":
-                    ops.append({"actor": "user", "op": fk, "flow": pick(r)})
+                    ops.append({"actor": "user", "op": fk, "flow": pick(r, aim_stale=0.3)})
                 elif fk == "focus_index":
                     ops.append({"actor": "user", "op": fk, "index": r.choice([0, 0, 1, 2, 3, 7, -1])})
                 else:
@@ -510,6 +623,10 @@ class _Run:
         self.order = "time"
         self.reversed = False
         self.marked_only = False
+        # what the view can know about flows that were changed without an update hook so far (entries exist only for
+        # stored flows with such a change pending; all other flows: the live attributes)
+        self.fseen = {}       # label -> attributes when the view last evaluated the filter for the flow
+        self.kseen = {}       # label -> attributes when the view last took the flow's sort key
         self.stale = {}       # label -> {order: set(reasons)}   (diagnosis only, never decides pass/fail)
         self.used_orders = {"time"}
         self.key_changed_since = {}  # order -> bool: some key of that order changed while it was inactive
@@ -545,10 +662,37 @@ class _Run:
         self.by_id[f.id] = label
         self.attrs[label] = a
 
+    def fattrs(self, l):
+        """Attributes of flow ``l`` as of the last time the view evaluated filter / marked-only for it."""
+        return self.fseen[l] if l in self.fseen else self.attrs[l]
+
+    def kattrs(self, l):
+        """Attributes of flow ``l`` as of the last time the view took its sort key."""
+        return self.kseen[l] if l in self.kseen else self.attrs[l]
+
+    def told(self, l):
+        """The view looked at the flow (update of it): verdict and key are those of the live attributes again."""
+        self.fseen.pop(l, None)
+        self.kseen.pop(l, None)
+
+    def reevaluated_all(self):
+        """A re-filter: the view evaluates every stored flow as it is now and takes the keys of those it lists."""
+        self.fseen.clear()
+        self.kseen.clear()
+
+    def drifted(self, l):
+        """The selected sort key of ``l`` changed since the view last took it."""
+        return l in self.kseen and m_key(self.kseen[l], self.order) != m_key(self.attrs[l], self.order)
+
+    def verdict(self, a):
+        return m_match(FILTERS[self.filter], a) and (not self.marked_only or a["marked"])
+
     def expected_members(self):
-        ast = FILTERS[self.filter]
-        return {l for l in self.store
-                if m_match(ast, self.attrs[l]) and (not self.marked_only or self.attrs[l]["marked"])}
+        if not self.fseen:
+            ast = FILTERS[self.filter]
+            return {l for l in self.store
+                    if m_match(ast, self.attrs[l]) and (not self.marked_only or self.attrs[l]["marked"])}
+        return {l for l in self.store if self.verdict(self.fattrs(l))}
 
     def store_add(self, label):
         if label not in self.store:
@@ -558,6 +702,8 @@ class _Run:
     def store_del(self, label):
         self.store.pop(label, None)
         self.stale.pop(label, None)
+        self.fseen.pop(label, None)
+        self.kseen.pop(label, None)
 
     def on_signal(self, kind, flow, index=None):
         # flows are tracked by object id here: duplicates get their label only when the operation has returned
@@ -592,6 +738,8 @@ class _Run:
         self.raw_sigs = []
         self.sig_problems = []
         exp_before = self.expected_members()
+        if self.kseen or self.fseen:
+            self.stale_probes(name, op, exp_before)
         targets = []           # labels whose update must be signalled when they stay listed
         may_raise = name not in MUST_NOT_RAISE
         skipped = False
@@ -633,7 +781,7 @@ class _Run:
             seen.add(l)
         ast = FILTERS[self.filter]
         for l in sorted(seen - exp_after):
-            a = self.attrs.get(l)
+            a = self.fseen.get(l, self.attrs.get(l))
             key = {"what": "extra", "via": via, "marked_only": self.marked_only,
                    "stored": l in self.store,
                    "flow_marked": bool(a and a["marked"]),
@@ -643,7 +791,7 @@ class _Run:
                                % (ctx, l, self.filter, self.marked_only, a, after, sorted(exp_after))})
             break
         for l in sorted(exp_after - seen):
-            a = self.attrs.get(l)
+            a = self.fattrs(l)
             key = {"what": "missing", "via": via, "marked_only": self.marked_only, "flow_marked": bool(a["marked"])}
             out.append({"class": "view_membership", "key": key,
                         "msg": "%s: %s matches (filter=%r marked_only=%s attrs=%s) but is not listed; listed=%s"
@@ -653,9 +801,15 @@ class _Run:
             out.append({"class": "view_sequence", "key": {"what": "len"},
                         "msg": "%s: len(view)=%d but it lists %d flows" % (ctx, len(v), len(after))})
 
-        # 3. order: keys along the listing are monotone in the selected direction (ties in any order)
+        # 3. order: keys along the listing are monotone in the selected direction (ties in any order); the key of a
+        #    flow that was changed without an update hook so far is the one it had when the view last took it
         if "?unknown" not in after and all(l in self.attrs for l in after):
-            keys = [m_key(self.attrs[l], self.order) for l in after]
+            keys = [m_key(self.kattrs(l), self.order) for l in after]
+            if self.kseen:
+                live = [m_key(self.attrs[l], self.order) for l in after]
+                if live != keys and any((live[j] < live[j + 1]) if self.reversed else (live[j] > live[j + 1])
+                                        for j in range(len(live) - 1)):
+                    self.probe("stale_position_owed")
             bad = []
             for j in range(len(keys) - 1):
                 wrong = keys[j] < keys[j + 1] if self.reversed else keys[j] > keys[j + 1]
@@ -682,6 +836,9 @@ class _Run:
                     trig = ("key_changed_while_order_inactive" if "key_changed_while_order_inactive" in triggers
                             else "key_changed_while_not_listed")
                 key = {"cause": "stale_cached_key" if explained else "unexplained", "trigger": trig}
+                if not explained and any(after[j] in self.kseen or after[j + 1] in self.kseen for j in bad):
+                    # neither at the place of its key as of the last insert/update nor (then kseen is empty) the live one
+                    key = {"cause": "unexplained", "trigger": "update_hook_pending"}
                 out.append({"class": "view_order", "key": key,
                             "msg": "%s: listing is not sorted by %s%s: %s" % (
                                 ctx, self.order, " (reversed)" if self.reversed else "",
@@ -753,14 +910,65 @@ class _Run:
         fl = self.lab(foc)
         if name == "remove" and focus_before in op.get("flows", []) and focus_before in before:
             self.probe("remove_focused")
+        if self.kseen and via == "focus" and exc is None and fl in after and self.drifted(fl):
+            self.probe("focus_on_stale")
+        if self.fseen and any(self.verdict(sa) != self.verdict(self.attrs[l]) for l, sa in self.fseen.items()):
+            self.probe("stale_filter_verdict")  # listed although it stopped matching / hidden although it matches now
         self.log.append((i, name, type(exc).__name__ if exc else "", tuple(after), fl, tuple(self.sigs)))
         self.states.add("%s|%d|%d|%s|%d|%d" % (self.order, self.reversed, self.marked_only, self.filter,
                                                min(len(after), 3), len(self.store) - len(after) > 0))
+
+    # -- which operation kinds ran while a listed flow's sort key was out of date (coverage only)
+    def stale_probes(self, name, op, exp_before):
+        drift = [l for l in self.kseen if l in exp_before and self.drifted(l)]
+        pending = set(self.kseen) | set(self.fseen)
+        if name in ("update", "update_batch", "kill"):
+            ls = [op.get("flow")] if name != "update_batch" else [it.get("flow") for it in op["flows"]]
+            if any(l in pending for l in ls):
+                self.probe("deliver_after_mutate")
+            if drift and not any(l in drift for l in ls) and any(l in self.store for l in ls):
+                self.probe("update_other_while_stale")
+        elif name == "duplicate":
+            if any(l in pending for l in op.get("flows", [])):
+                self.probe("duplicate_while_stale")
+        elif name == "add":
+            if op.get("flow") in pending:
+                self.probe("add_stored_id_while_stale")
+        elif name == "remove":
+            if any(l in drift for l in op.get("flows", [])):
+                self.probe("remove_while_stale")
+        elif drift and name in ("clear", "clear_unmarked", "set_order", "set_reversed"):
+            self.probe(name + "_while_stale")
+        elif drift and name in ("set_filter", "toggle_marked"):
+            self.probe("refilter_while_stale")
 
     # -- drive the real view + advance the model; returns True when the op is a no-op after shrinking
     def do(self, op, targets, exp_before):
         name = op["op"]
         v = self.view
+        if name == "mutate":
+            # a proxy layer changes the flow; the hook that tells the view has not fired yet
+            l = op.get("flow")
+            if l not in self.objs:
+                return True
+            a = self.attrs[l]
+            s = {k: val for k, val in op.get("set", {}).items() if k in a and a[k] != val}
+            if not s:
+                return True
+            if l in self.store:
+                snap = None
+                for seen in (self.fseen, self.kseen):
+                    if l not in seen:
+                        snap = snap or copy.deepcopy(a)
+                        seen[l] = snap  # snapshots are never written to, so they may be shared
+                self.probe("mutated_without_update")
+            a.update(copy.deepcopy(s))
+            apply_real(self.objs[l], a, s)
+            if l in exp_before and self.drifted(l):
+                self.probe("mutate_key_drift_in_view")
+            if s.get("error"):
+                self.faults["flow_error"] = self.faults.get("flow_error", 0) + 1
+            return False
         if name == "add":
             l = op["flow"]
             if l not in self.objs:
@@ -784,7 +992,8 @@ class _Run:
             items = [it for it in items if it.get("flow") in self.objs]
             if not items:
                 return True
-            old = {it["flow"]: copy.deepcopy(self.attrs[it["flow"]]) for it in items}
+            # old = what the view knew (differs from the live attributes when an earlier `mutate` is still unannounced)
+            old = {it["flow"]: copy.deepcopy(self.kattrs(it["flow"])) for it in items}
             for it in items:
                 l = it["flow"]
                 a = self.attrs[l]
@@ -795,6 +1004,7 @@ class _Run:
                 apply_real(self.objs[l], a, s)
                 if a["error"] and "error" in s:
                     self.faults["flow_error"] = self.faults.get("flow_error", 0) + 1
+                self.told(l)  # the hook below makes the view evaluate the flow as it is now
             self._after_mutation(old, exp_before)
             flows = [self.objs[it["flow"]] for it in items]
             for it in items:
@@ -824,7 +1034,7 @@ class _Run:
                 return True
             a = self.attrs[l]
             f = self.objs[l]
-            old = {l: copy.deepcopy(a)}
+            old = {l: copy.deepcopy(self.kattrs(l))}
             if a["live"]:
                 a["live"] = False
                 a["error"] = True
@@ -832,6 +1042,7 @@ class _Run:
                 self.probe("kill")
             if f.killable:
                 f.kill()
+            self.told(l)
             self._after_mutation(old, exp_before)
             if l in self.store:
                 targets.append(l)
@@ -879,6 +1090,7 @@ class _Run:
         if name == "set_filter":
             expr = op["expr"]
             self.filter = expr
+            self.reevaluated_all()
             if self.store:
                 self.probe("refilter_nonempty")
             self.n_user_changes += 1
@@ -889,6 +1101,10 @@ class _Run:
             if o != self.order and o in self.used_orders and self.key_changed_since.get(o):
                 self.probe("order_switch_back_after_key_change")
             self.order = o
+            if self.kseen:
+                # the keys of all listed flows are taken afresh for the chosen order (no filter evaluation)
+                for l in exp_before:
+                    self.kseen.pop(l, None)
             self.used_orders.add(o)
             self.key_changed_since[o] = False
             self.n_user_changes += 1
@@ -901,6 +1117,7 @@ class _Run:
             return False
         if name == "toggle_marked":
             self.marked_only = not self.marked_only
+            self.reevaluated_all()
             if self.store:
                 self.probe("refilter_nonempty")
             self.n_user_changes += 1
@@ -920,6 +1137,7 @@ class _Run:
                 self.probe("clear_unmarked")
             for l in gone:
                 self.store_del(l)
+            self.reevaluated_all()
             self.n_user_changes += 1
             v.clear_not_marked()
             return False
@@ -1004,7 +1222,7 @@ def shrink_candidates(sc):
     """Beyond dropping ops (generic shrinker): drop single attribute changes, simplify new-flow attributes."""
     ops = sc.get("ops", [])
     for i, op in enumerate(ops):
-        if op["op"] == "update" and len(op.get("set", {})) > 1:
+        if op["op"] in ("update", "mutate") and len(op.get("set", {})) > (1 if op["op"] == "mutate" else 0):
             for k in sorted(op["set"]):
                 c = copy.deepcopy(sc)
                 del c["ops"][i]["set"][k]
